@@ -57,7 +57,7 @@ class settings(metaclass=MetaSettings):
         ] = lambda *_: None
         type: Callable[[AnyType], Optional[Schema]] = lambda *_: None
 
-    class errors:
+    class errors(metaclass=ResetCache):
         minimum: ConstraintError = "less than {} (minimum)"
         maximum: ConstraintError = "greater than {} (maximum)"
         exclusive_minimum: ConstraintError = (
